@@ -42,13 +42,12 @@ Theorem C09_declared_matching_is_candidate :
 Proof. exact declared_is_candidate. Qed.
 Print Assumptions C09_declared_matching_is_candidate.
 
-(* SELECT_MAXIMAL, as the code implements it (PARTIAL w.r.t. the property: "generic" is counted
-   per parameter whose type IS a type parameter): for every population, stream, position,
-   argument typing, and for EVERY permutation a correct (stable or unstable) sort may return,
-   the selected alias is declared, matches, type-matches, and no declared, matching,
-   type-matching alias is longer, or equally long with fewer counted generic parameters, or
-   equal in both with more Referenz parameters. Ties: some maximal candidate. *)
-Theorem C09_select_maximal_partial :
+(* SELECT_MAXIMAL by the sort key: for every population, stream, position, argument typing, and
+   for EVERY permutation a correct (stable or unstable) sort may return, the selected alias is
+   declared, matches, type-matches, and no declared, matching, type-matching alias is longer, or
+   equally long with fewer generic parameters, or equal in both with more Referenz parameters.
+   Ties: some maximal candidate. *)
+Theorem C09_select_maximal_by_key :
   forall (s : list tok) (argty : bool -> nat -> option ty) (text_index : nat -> bool)
          (inst_ok : alias -> genv -> bool) (ty_buchstabe : ty)
          (decls : list alias) (start : nat) (l : list alias) (a : alias) (b : list binding) (e : genv),
@@ -62,16 +61,14 @@ Theorem C09_select_maximal_partial :
       (alias_len c = alias_len a ->
          gen_count a <= gen_count c /\ (gen_count c = gen_count a -> ref_count c <= ref_count a)).
 Proof. exact select_maximal_explicit. Qed.
-Print Assumptions C09_select_maximal_partial.
+Print Assumptions C09_select_maximal_by_key.
 
-(* SELECT_MAXIMAL in the property's wording (longest; then non-generic before generic; then
-   more Referenz parameters), FULL for populations in which every generic declaration among
-   the candidates has a parameter that is itself a type parameter *)
+(* SELECT_MAXIMAL in the property's wording, FULL: longest; on equal length a non-generic
+   declaration before a generic one; among non-generic ones more Referenz parameters *)
 Theorem C09_select_maximal :
   forall (s : list tok) (argty : bool -> nat -> option ty) (text_index : nat -> bool)
          (inst_ok : alias -> genv -> bool) (ty_buchstabe : ty)
          (decls : list alias) (start : nat) (l : list alias) (a : alias) (b : list binding) (e : genv),
-    (forall c, In c (candidates s (declare_all decls) start) -> generic_is_counted c) ->
     sorted_perm (candidates s (declare_all decls) start) l ->
     select_from s argty text_index inst_ok ty_buchstabe l start = Selected a b e ->
     In a (candidates s (declare_all decls) start) /\
@@ -85,16 +82,17 @@ Theorem C09_select_maximal :
 Proof. exact select_maximal_property. Qed.
 Print Assumptions C09_select_maximal.
 
-(* ... and REFUTED without that restriction: "foo <a>" for a Zahlen Liste and, generically, for
-   a T Liste, call "foo vzl": the generic declaration is selected although the non-generic one
-   matches, type-matches and is equally long *)
-Theorem C09_select_maximal_refuted :
-  exists (s : list tok) argty text_index inst_ok tb decls a c b e,
-    select s argty text_index inst_ok tb (declare_all decls) 0 = Selected a b e /\
-    In c (candidates s (declare_all decls) 0) /\ check_ok s argty text_index inst_ok tb c 0 = true /\
-    alias_len c = alias_len a /\ a_generic a = true /\ a_generic c = false.
-Proof. exact select_maximal_refuted. Qed.
-Print Assumptions C09_select_maximal_refuted.
+(* documentation of the defect repaired in /repo 3e80d99: the key of the pinned tree (a parameter
+   counted as generic only if its type IS a type parameter) tied "foo <a>" for a Zahlen Liste with
+   the generic "foo <a>" for a T Liste; the current key sorts the non-generic one first and it is
+   selected in both declaration orders *)
+Theorem C09_old_sort_key_tied :
+  gen_count_direct w_conc = gen_count_direct w_gen /\ a_generic w_gen = true /\ a_generic w_conc = false /\
+  alias_less w_conc w_gen = true /\
+  (exists b e, w_select [w_conc; w_gen] = Selected w_conc b e) /\
+  (exists b e, w_select [w_gen; w_conc] = Selected w_conc b e).
+Proof. exact old_sort_key_tied_witness. Qed.
+Print Assumptions C09_old_sort_key_tied.
 
 (* SELECT_COMPLETE: if some candidate type-matches, one is selected ... *)
 Theorem C09_select_complete :
